@@ -4,6 +4,7 @@ conversions built in unsafe mode report errors.  The typing lemmas of
 `ConvertType.lean` supply the facts about intermediate results.
 -/
 import CtyModel.Lemmas.ConvertProps
+import CtyModel.Lemmas.ConvertD08WT
 namespace CtyModel
 namespace Convert
 open Ty
@@ -56,44 +57,59 @@ theorem mapVal_NB {uns : Bool} {t : Ty} (hw : wf t = true) (hd : t.isDyn = false
   simp only [this, elemTyOf_same hw hd hne h]
   exact NB.ok _
 
-theorem setAdd_NB {E : Env} (hS : SetLaws E) {uns : Bool} (ety : Ty) (h : Int) (x : Payload) :
-    ∀ (l : List (Int × Payload)), NB uns (setAdd E ety h x l)
-  | [] => NB.ok _
-  | (j, y) :: rest => by
+theorem setAdd_NB {E : Env} (hS : SetLaws E) {uns : Bool} (ety : Ty) (hw : wf ety = true) (h : Int) (x : Payload)
+    (hx : memberOK ety x = true) :
+    ∀ (l : List (Int × Payload)), (∀ y ∈ l, memberOK ety y.2 = true) → NB uns (setAdd E ety h x l)
+  | [], _ => NB.ok _
+  | (j, y) :: rest, hl => by
+    have hrest : ∀ z ∈ rest, memberOK ety z.2 = true := fun z hz => hl z (List.mem_cons_of_mem _ hz)
     simp only [setAdd]
     split
-    · exact NB.map (setAdd_NB hS ety h x rest)
+    · exact NB.map (setAdd_NB hS ety hw h x hx rest hrest)
     · split
-      · rcases hS.equiv_ok ety x y with ⟨r, hr⟩ | hr
+      · rcases hS.equiv_ok ety x y hw hx (hl (j, y) (by simp)) with ⟨r, hr⟩ | hr
         · rw [hr]
           cases r
-          · exact NB.map (setAdd_NB hS ety h x rest)
+          · exact NB.map (setAdd_NB hS ety hw h x hx rest hrest)
           · exact NB.ok _
         · rw [hr]; exact NB.unmodelled
       · exact NB.ok _
 
-theorem newSetAcc_NB {E : Env} (hS : SetLaws E) {uns : Bool} (ety : Ty) :
-    ∀ (xs : List Payload) (acc : List (Int × Payload)), NB uns (newSetAcc E ety xs acc)
-  | [], _ => NB.ok _
-  | x :: xs, acc => by
+theorem newSetAcc_NB {E : Env} (hS : SetLaws E) {uns : Bool} (ety : Ty) (hw : wf ety = true) :
+    ∀ (xs : List Payload) (acc : List (Int × Payload)), (∀ x ∈ xs, memberOK ety x = true) →
+    (∀ y ∈ acc, memberOK ety y.2 = true) → NB uns (newSetAcc E ety xs acc)
+  | [], _, _, _ => NB.ok _
+  | x :: xs, acc, hxs, hacc => by
     simp only [newSetAcc]
-    rcases hS.hash_ok ety x with ⟨h, hh⟩ | hh
+    have hx := hxs x (by simp)
+    rcases hS.hash_ok ety x hw hx with ⟨h, hh⟩ | hh
     · rw [hh]
       simp only
-      have := setAdd_NB hS (uns := uns) ety h x acc
+      have := setAdd_NB hS (uns := uns) ety hw h x hx acc hacc
       cases hsa : setAdd E ety h x acc with
-      | ok acc' => exact newSetAcc_NB hS ety xs acc'
+      | ok acc' =>
+        refine newSetAcc_NB hS ety hw xs acc' (fun y hy => hxs y (List.mem_cons_of_mem _ hy)) ?_
+        intro y hy
+        rcases setAdd_mem hsa y hy with h1 | h1
+        · rw [h1]; exact hx
+        · exact hacc y h1
       | err c => exact ⟨by simp, fun c' _ => (hsa ▸ this).2 c rfl⟩
       | panic w => exact absurd hsa ((hsa ▸ this).1 w |> fun h => by simpa using h)
       | unmodelled => exact NB.unmodelled
     · rw [hh]; exact NB.unmodelled
 
 theorem setVal_NB {E : Env} (hS : SetLaws E) {uns : Bool} {t : Ty} (hw : wf t = true) (hd : t.isDyn = false)
-    {vs : List Value} (hne : vs ≠ []) (h : ∀ v ∈ vs, v.ty = t) : NB uns (setVal E vs) := by
+    {vs : List Value} (hne : vs ≠ []) (h : ∀ v ∈ vs, v.ty = t) (hg : ∀ v ∈ vs, vgood true v) :
+    NB uns (setVal E vs) := by
   unfold setVal
   have : vs.isEmpty = false := by cases vs <;> simp at hne ⊢
   simp only [this, elemTyOf_same hw hd hne h]
-  exact NB.map (NB.map (newSetAcc_NB hS t _ []))
+  refine NB.map (NB.map (newSetAcc_NB hS t hw _ [] ?_ (by simp)))
+  intro x hx
+  obtain ⟨v, hv, rfl⟩ := List.mem_map.mp hx
+  have h1 := (hg v hv).1
+  rw [h v hv] at h1
+  simp [memberOK, wtP_stripMarks t _ h1, stripMarks_noMarks, wk_stripMarks, (hg v hv).2 rfl]
 
 /-! ### the recursive calls do nothing bad on wholly-known members -/
 
@@ -112,9 +128,10 @@ theorem whollyKnownL_mem : ∀ {ps : List Payload}, Payload.whollyKnownL ps = tr
 
 section Bodies
 variable {E : Env} (hU : UnifyLaws E) (hS : SetLaws E) {rec : Rec} (hrec : RecOK E rec) (hnb : RecNB E rec)
-include hU hS hrec hnb
+  (hwt : RecWT E rec)
+include hU hS hrec hnb hwt
 
-omit hU hS hrec in
+omit hU hS hrec hwt in
 theorem planFor_NB {uns : Bool} {it ot : Ty} {p : Plan} {e : Value} (hp : PlanFor E uns it ot p)
     (hc : Conds it ot e) (hk : Payload.whollyKnown e.v = true) : NB uns (applyOpt rec p e) := by
   rcases hp with ⟨rfl, _⟩ | ⟨c, rfl, hg⟩
@@ -125,7 +142,7 @@ theorem planFor_NB {uns : Bool} {it ot : Ty} {p : Plan} {e : Value} (hp : PlanFo
 def Members (es : List Value) (ie : Ty) : Prop :=
   ∀ e ∈ es, e.ty = ie ∧ wtP ie e.v = true ∧ Payload.whollyKnown e.v = true
 
-omit hU hS hrec in
+omit hU hS hrec hwt in
 theorem members_NB {uns : Bool} {ie oe conv} {post : Value → Value}
     (hpf : PlanFor E uns ie oe conv) (hwi : wf ie = true) (hoi : hasOpt ie = false)
     (hwo : wf oe = true) (hdo : hasDyn oe = false)
@@ -136,7 +153,7 @@ theorem members_NB {uns : Bool} {ie oe conv} {post : Value → Value}
   obtain ⟨h1, h2, h3⟩ := hes e he
   exact NB.map (planFor_NB hnb hpf ⟨h1, hwi, hwo, hoi, hdo, h2⟩ h3)
 
-omit hS in
+omit hS hwt in
 theorem collToList_NB {uns : Bool} {ie oe conv} {v : Value} {es : List Value}
     (hpf : PlanFor E uns ie oe conv) (hwi : wf ie = true) (hoi : hasOpt ie = false)
     (hwo : wf oe = true) (hdo : hasDyn oe = false)
@@ -179,9 +196,11 @@ theorem collToSet_NB {uns : Bool} {ie oe conv} {v : Value} {es : List Value}
     have hT := wf_stripOpt oe hwo
     have hTd : (stripOpt oe).isDyn = false := not_isDyn_of_noDyn (by rw [stripOpt_hasDyn]; exact hdo)
     simp only [canCollVal_same hT hTd hne' hty.2]
-    exact setVal_NB hS hT hTd hne' hty.2
+    have hg := members_good hwt (k := true) (post := stripNull) (fun _ hv => vgood_stripNull hv)
+      hpf hwi hoi hwo hdo (fun e he => ⟨(hm e he).1, (hm e he).2.1, fun _ => (hm e he).2.2⟩) hes'
+    exact setVal_NB hS hT hTd hne' hty.2 hg
 
-omit hS in
+omit hS hwt in
 theorem collToMap_NB {uns : Bool} {ie oe conv} {v : Value} {es : List Value}
     (hpf : PlanFor E uns ie oe conv) (hwi : wf ie = true) (hoi : hasOpt ie = false)
     (hwo : wf oe = true) (hdo : hasDyn oe = false)
@@ -211,7 +230,7 @@ theorem collToMap_NB {uns : Bool} {ie oe conv} {v : Value} {es : List Value}
     simp only [Res.bind, canCollVal_same hT hTd hne' hty.2]
     exact mapVal_NB hT hTd hne' hty.2
 
-omit hU hS hrec in
+omit hU hS hrec hwt in
 theorem applyZip_all_NB {uns : Bool} {t : Ty} (post : Value → Value) (hwt : wf t = true) (hdt : hasDyn t = false) :
     ∀ (its : List Ty) (cs : List Plan) (ps : List Payload),
     All2 (fun it p => PlanFor E uns it t p) its cs → wtZip its ps = true → Payload.whollyKnownL ps = true →
@@ -229,7 +248,7 @@ theorem applyZip_all_NB {uns : Bool} {t : Ty} (post : Value → Value) (hwt : wf
     refine NB.bind (applyZip_all_NB post hwt hdt its _ ps hps hw.2 hk.2 fun x hx => hall x (by simp [hx]))
       fun vs' _ => NB.ok _
 
-omit hU hS hrec in
+omit hU hS hrec hwt in
 theorem applyZip_zip_NB {uns : Bool} :
     ∀ (its ots : List Ty) (cs : List Plan) (ps : List Payload),
     All3 (fun it ot p => PlanFor E uns it ot p) its ots cs → wtZip its ps = true →
@@ -250,7 +269,7 @@ theorem applyZip_zip_NB {uns : Bool} :
     refine NB.bind (applyZip_zip_NB its ots cs ps hps hw.2 hk.2 hwi.2 hoi.2 hwo.2 hdo.2)
       fun vs' _ => NB.ok _
 
-omit hS in
+omit hS hwt in
 theorem tupToList_NB {uns : Bool} {its : List Ty} {oe : Ty} {cs : List Plan} {ps : List Payload}
     (hpl : All2 (fun it p => PlanFor E uns it oe p) its cs) (hne : its ≠ []) (hw : wtZip its ps = true)
     (hk : Payload.whollyKnownL ps = true)
@@ -293,9 +312,11 @@ theorem tupToSet_NB {uns : Bool} {its : List Ty} {oe : Ty} {cs : List Plan} {ps 
   have hT := wf_stripOpt oe hwo
   have hTd : (stripOpt oe).isDyn = false := not_isDyn_of_noDyn (by rw [stripOpt_hasDyn]; exact hdo)
   simp only [canCollVal_same hT hTd hne' hm.2]
-  exact setVal_NB hS hT hTd hne' hm.2
+  have hg := applyZip_all_good hwt (k := true) stripNull (fun _ hv => vgood_stripNull hv) hwo hdo its cs ps es'
+    hpl hw (fun _ => hk) hall hes'
+  exact setVal_NB hS hT hTd hne' hm.2 hg
 
-omit hS in
+omit hS hwt in
 theorem objToMap_NB {uns : Bool} {inn : List String} {its : List Ty} {ios : List Bool} {oe : Ty}
     {cs : List Plan} {ps : List Payload}
     (hpl : All2 (fun it p => PlanFor E uns it oe p) its cs) (hne : its ≠ []) (hw : wtZip its ps = true)
@@ -327,7 +348,7 @@ theorem objToMap_NB {uns : Bool} {inn : List String} {its : List Ty} {ios : List
   simp only [Res.bind, canCollVal_same hT hTd hne' hm.2]
   exact mapVal_NB hT hTd hne' hm.2
 
-omit hU hS hrec in
+omit hU hS hrec hwt in
 theorem tupToTup_NB {uns : Bool} {its ots : List Ty} {cs : List Plan} {ps : List Payload}
     (hpl : All3 (fun it ot p => PlanFor E uns it ot p) its ots cs) (hw : wtZip its ps = true)
     (hk : Payload.whollyKnownL ps = true)
@@ -339,7 +360,7 @@ theorem tupToTup_NB {uns : Bool} {its ots : List Ty} {cs : List Plan} {ps : List
   simp at h0; subst h0
   exact NB.bind (applyZip_zip_NB hnb its ots cs ps hpl hw hk hwi hoi hwo hdo) fun _ _ => NB.ok _
 
-omit hU hS hrec in
+omit hU hS hrec hwt in
 theorem objAttrLoop_NB {uns : Bool} {on : List String} {ot : List Ty} {oo : List Bool} {keys : List String}
     {convs : List Plan} :
     ∀ (ns : List String) (its : List Ty) (cs : List Plan) (ps : List Payload),
@@ -361,7 +382,7 @@ theorem objAttrLoop_NB {uns : Bool} {on : List String} {ot : List Ty} {oo : List
       rcases hpf with ⟨rfl, _⟩ | ⟨c', rfl, _⟩ <;>
         exact NB.bind hstep fun _ _ => NB.bind ih fun _ _ => NB.ok _
 
-omit hU hS hrec in
+omit hU hS hrec hwt in
 theorem objToObj_NB {uns : Bool} {inn : List String} {its : List Ty} {ios : List Bool} {on : List String}
     {ot : List Ty} {oo : List Bool} {cs : List Plan} {ps : List Payload}
     (hpl : All3 (AttrPlan E uns on ot oo) inn its cs) (hw : wtZip its ps = true)
@@ -387,7 +408,7 @@ theorem objToObj_NB {uns : Bool} {inn : List String} {its : List Ty} {ios : List
   simp only [List.nil_append] at hok
   exact NB.bind (objAttrLoop_NB hnb inn its cs ps hok hw hk) fun _ _ => NB.ok _
 
-omit hU hS hrec in
+omit hU hS hrec hwt in
 theorem mapObjLoop_NB {ie : Ty} {names : List String} {tys : List Ty} {opts : List Bool} {convs : List Plan}
     (hpl : All2 (fun ot p => MapObjPlan E true ie ot p) tys convs)
     (hl1 : names.length = tys.length) (hl2 : opts.length = tys.length)
@@ -418,7 +439,7 @@ theorem mapObjLoop_NB {ie : Ty} {names : List String} {tys : List Ty} {opts : Li
       · exact NB.ok _
       · exact hnb ie t true c ⟨ie, p⟩ hg ⟨rfl, hwi, hwt, hoi, hdt, hw.1⟩ hk.1
 
-omit hU hS hrec hnb in
+omit hU hS hrec hnb hwt in
 theorem mapObjFill_NB {keys : List String} {vals : List Value} :
     ∀ (ns : List String) (ts : List Ty) (os : List Bool), NB true (mapObjFill keys vals ns ts os)
   | [], _, _ => by simp only [mapObjFill]; exact NB.ok _
@@ -432,7 +453,7 @@ theorem mapObjFill_NB {keys : List String} {vals : List Value} :
       · exact NB.map (mapObjFill_NB ns ts os)
       · exact NB.err _
 
-omit hU hS hrec in
+omit hU hS hrec hwt in
 theorem mapToObj_NB {ie : Ty} {on : List String} {ot : List Ty} {oo : List Bool}
     {cs : List Plan} {ks : List String} {ps : List Payload}
     (hpl : All2 (fun t p => MapObjPlan E true ie t p) ot cs) (hw : wtAll ie ps = true)
@@ -488,7 +509,7 @@ theorem parseNumber_no_panic (s : String) (w : String) : parseNumber s ≠ .pani
 /-! ### every closure body -/
 
 theorem inner_NB {E : Env} (hU : UnifyLaws E) (hS : SetLaws E) {rec : Rec} (hrec : RecOK E rec)
-    (hnb : RecNB E rec) (inT out : Ty) (uns : Bool) (c : Plan) (v : Value)
+    (hnb : RecNB E rec) (hwt' : RecWT E rec) (inT out : Ty) (uns : Bool) (c : Plan) (v : Value)
     (hg : gck E inT out uns = some c) (hc : Conds inT out v) (hp : plain v.v)
     (hk : Payload.whollyKnown v.v = true) : NB uns (applyStep E rec c v) := by
   obtain ⟨hty, hwI, hwO, hoI, hdO, hwt⟩ := hc
@@ -597,7 +618,7 @@ theorem inner_NB {E : Env} (hU : UnifyLaws E) (hS : SetLaws E) {rec : Rec} (hrec
         · obtain ⟨c', hc', rfl⟩ := Option.map_eq_some_iff.mp hg
           exact ⟨_, rfl, .inr ⟨c', rfl, hc'⟩⟩
       obtain ⟨conv, rfl, hpf⟩ := hpf
-      exact collToSet_NB hU hS hrec hnb hpf hwi hoi hwo hdo rfl hm
+      exact collToSet_NB hU hS hrec hnb hwt' hpf hwi hoi hwo hdo rfl hm
     case set ie =>
       have hwi : wf ie = true := by simpa [wf] using hwI
       have hoi : hasOpt ie = false := by simpa [hasOpt] using hoI
@@ -613,7 +634,7 @@ theorem inner_NB {E : Env} (hU : UnifyLaws E) (hS : SetLaws E) {rec : Rec} (hrec
         · obtain ⟨c', hc', rfl⟩ := Option.map_eq_some_iff.mp hg
           exact ⟨_, rfl, .inr ⟨c', rfl, hc'⟩⟩
       obtain ⟨conv, rfl, hpf⟩ := hpf
-      exact collToSet_NB hU hS hrec hnb hpf hwi hoi hwo hdo rfl hm
+      exact collToSet_NB hU hS hrec hnb hwt' hpf hwi hoi hwo hdo rfl hm
     case tuple its =>
       have hwi : wfL its = true := by simpa [wf] using hwI
       have hoi : hasOptL its = false := by simpa [hasOpt] using hoI
@@ -628,7 +649,7 @@ theorem inner_NB {E : Env} (hU : UnifyLaws E) (hS : SetLaws E) {rec : Rec} (hrec
         simp only [seqTargetEty, hnd] at hg
         obtain ⟨cs, hcs, rfl⟩ := Option.map_eq_some_iff.mp hg
         have hpl := gcAll_inv E uns oe hcs
-        exact tupToSet_NB hS hrec hnb hpl hne hps hkl
+        exact tupToSet_NB hS hrec hnb hwt' hpl hne hps hkl
           (fun it hit => ⟨wfL_mem hwi it hit, hasOptL_mem hoi it hit⟩) hwo hdo
   | map oe =>
     have hwo : wf oe = true := by simpa [wf] using hwO
@@ -739,7 +760,7 @@ theorem recNB_apply {E : Env} (hU : UnifyLaws E) (hS : SetLaws E) : ∀ n, RecNB
           | zero => simp only [apply]; exact NB.unmodelled
           | succ m =>
             simp only [apply]
-            exact inner_NB hU hS (recOK_apply hU m) (ih m (by omega)) inT out uns c v hg hc
+            exact inner_NB hU hS (recOK_apply hU m) (ih m (by omega)) (recWT_apply hU m) inT out uns c v hg hc
               ⟨hm', hkn, (by simpa using hnn : v.isNull = false)⟩ hk
 
 /-- `Convert` never panics on a wholly-known value to a placeholder-free target -/
